@@ -786,6 +786,10 @@ func (p *CaseForm) typecheckForm(gammaNameTypesCtx NamesTypesCtx, providerShadow
 			// Copy gamma so that each branch has its own version
 			newGammaNameTypesCtx := copyContext(gammaNameTypesCtx)
 
+			if isProvider(curBranchForm.payload_c, providerShadowName) {
+				return TypeErrorf("you cannot assign self to a new channel (%s)", curBranchForm.StringShort())
+			}
+
 			// curBranchForm.payload_c cannot exist in gammaNameTypesCtx
 			if nameTypeExists(newGammaNameTypesCtx, curBranchForm.payload_c.Ident) {
 				// Name is not fresh (it would silently shadow a name that still has to be used)
@@ -843,6 +847,10 @@ func (p *NewForm) typecheckForm(gammaNameTypesCtx NamesTypesCtx, providerShadowN
 	//		// Names are not fresh
 	//		return TypeErrorf("the cut rule requires a new variable; %s is already assigned", p.new_name_c.String())
 	//	}
+	if isProvider(p.new_name_c, providerShadowName) {
+		return TypeErrorf("you cannot assign self to a new channel (%s)", p.StringShort())
+	}
+
 	_, new_name_reused := gammaNameTypesCtx[p.new_name_c.Ident]
 
 	if !new_name_reused && nameInNames(p.new_name_c, p.body.FreeNames()...) {
@@ -1281,6 +1289,10 @@ func (p *SplitForm) typecheckForm(gammaNameTypesCtx NamesTypesCtx, providerShado
 
 	if err != nil {
 		return TypeErrorE(err)
+	}
+
+	if isProvider(p.channel_one, providerShadowName) || isProvider(p.channel_two, providerShadowName) {
+		return TypeErrorf("you cannot assign self to a new channel (%s)", p.StringShort())
 	}
 
 	// Ensure new names
